@@ -73,6 +73,15 @@ impl MVal {
         }
     }
 
+    /// Rough heap footprint: string and key bytes plus a word per node.
+    pub fn approx_bytes(&self) -> usize {
+        match self {
+            MVal::Str(s) => 24 + s.len(),
+            MVal::Arr(xs) => 24 + xs.iter().map(|x| x.approx_bytes()).sum::<usize>(),
+            MVal::Obj(m) => 24 + m.iter().map(|(k, v)| 24 + k.len() + v.approx_bytes()).sum::<usize>(),
+            _ => 16,
+        }
+    }
     pub fn node_count(&self) -> usize {
         match self {
             MVal::Arr(xs) => 1 + xs.iter().map(|x| x.node_count()).sum::<usize>(),
@@ -582,7 +591,8 @@ fn write_json(v: &MVal, out: &mut String) {
 /// Style knobs for text fed to the library (all choices RFC 8259-valid).
 #[derive(Clone, Copy, Debug, Default)]
 pub struct TextStyle {
-    /// 0 none, 1 single spaces after ',' and ':', 2 mixed whitespace incl. newlines/tabs
+    /// 0 none, 1 single spaces after ',' and ':', 2 mixed whitespace incl. newlines/tabs (also before ':' and before
+    /// some ','), 3 one space on BOTH sides of every ',' and ':' ("[1 , 2]", comma-first layouts)
     pub ws: u8,
     /// escape every non-ASCII char as \uXXXX (surrogate pairs above the BMP)
     pub escape_non_ascii: bool,
@@ -670,7 +680,7 @@ fn write_string_styled(s: &str, st: &TextStyle, out: &mut String) {
 fn ws(st: &TextStyle, slot: usize, out: &mut String) {
     match st.ws {
         0 => {}
-        1 => out.push(' '),
+        1 | 3 => out.push(' '),
         _ => out.push_str(["", " ", "\n", "\t ", "  ", "\r\n"][slot % 6]),
     }
 }
@@ -695,6 +705,9 @@ fn write_text(v: &MVal, st: &TextStyle, slot: &mut usize, out: &mut String) {
             out.push('[');
             for (i, x) in xs.iter().enumerate() {
                 if i > 0 {
+                    if st.ws == 3 || (st.ws == 2 && *slot % 3 == 0) {
+                        ws(st, *slot + 4, out);
+                    }
                     out.push(',');
                 }
                 *slot += 1;
@@ -721,6 +734,9 @@ fn write_text(v: &MVal, st: &TextStyle, slot: &mut usize, out: &mut String) {
             }
             for (i, (k, x)) in m.iter().enumerate() {
                 if i > 0 {
+                    if st.ws == 3 || (st.ws == 2 && *slot % 3 == 0) {
+                        ws(st, *slot + 4, out);
+                    }
                     out.push(',');
                 }
                 *slot += 1;
